@@ -42,26 +42,58 @@ def evaluate(body, decide, max_steps=200):
 
 
 def result_on_path(body, path, env):
-    """Value of _0 at return: ('variant', name) | ('arg', i) resolved through env | ('const', v)."""
-    val = None
+    """Value of _0 at return, evaluated along this one path (the last definition of each local *on the path* counts, so joins are
+    resolved by the path, not merged): ('variant', name) | ('const', v) | the value of an argument from env | ('call', path) | ('?', text)."""
+    events = []     # (local, kind, payload) in path order
     for b in path:
         for s in body.blocks[b]["s"]:
-            if s["k"] == "assign" and s["p"]["l"] == 0 and not s["p"]["p"]:
-                r = s["r"]
-                if r["k"] == "agg":
-                    val = ("variant", r["variant"])
-                else:
-                    o = body.origin_rvalue(r)
-                    if o[0] == "arg":
-                        val = env.get(o[1])
-                    elif o[0] == "const":
-                        val = ("const", o[1])
-                    else:
-                        val = ("?", mir.fmt(o))
+            if s["k"] == "assign" and not s["p"]["p"]:
+                events.append((s["p"]["l"], "rv", s["r"]))
         t = body.blocks[b]["t"]
-        if t["k"] == "call" and t["d"]["l"] == 0 and not t["d"]["p"]:
-            val = ("call", mir.callee_path(t))
-    return val
+        if t["k"] == "call" and not t["d"]["p"]:
+            events.append((t["d"]["l"], "call", t))
+
+    def operand(o, upto, depth):
+        if "k" in o:
+            c = o["k"]
+            if "int" in c:
+                return ("const", int(c["int"]))
+            if "bool" in c:
+                return ("const", 1 if c["bool"] else 0)
+            return ("?", "const " + c.get("ty", ""))
+        pl = o.get("c") or o.get("m")
+        if pl is None or pl["p"]:
+            return ("?", "projection")
+        return local(pl["l"], upto, depth + 1)
+
+    def local(l, upto, depth=0):
+        if depth > 30:
+            return ("?", "depth")
+        for idx in range(upto - 1, -1, -1):
+            ll, kind, payload = events[idx]
+            if ll != l:
+                continue
+            if kind == "call":
+                return ("call", mir.callee_path(payload))
+            r = payload
+            if r["k"] == "agg" and r.get("ak") == "adt":
+                return ("variant", r["variant"])
+            if r["k"] == "use":
+                return operand(r["o"], idx, depth)
+            if r["k"] == "un" and r["op"] == "Not":
+                v = operand(r["o"], idx, depth)
+                return ("const", 0 if v[1] else 1) if v[0] == "const" else ("?", "not " + str(v))
+            if r["k"] == "cast":
+                return operand(r["o"], idx, depth)
+            o = body.origin_rvalue(r)
+            if o[0] == "const":
+                return ("const", o[1])
+            return ("?", mir.fmt(o))
+        if 1 <= l <= body.argc:
+            return env.get(l, ("?", "arg%d" % l))
+        return ("?", "undefined _%d" % l)
+
+    return local(0, len(events))
 
 
 def run(tier):
